@@ -11,15 +11,15 @@ git -C /repo worktree add --detach "$W/wt" HEAD -q || exit 3
 cleanup() { git -C /repo worktree remove --force "$W/wt" >/dev/null 2>&1; rm -rf "$W"; }
 trap cleanup EXIT
 ( cd "$W/wt" && git apply "$PATCH" ) || { echo "PATCH DOES NOT APPLY"; exit 3; }
-sed "s|=> /repo|=> $W/wt|" /verif/harness/go.mod > "$W/go.mod"; cp /verif/harness/go.sum "$W/go.sum"
+sed "s|=> /repo|=> $W/wt|" ${HARNESS:-/verif/harness}/go.mod > "$W/go.mod"; cp ${HARNESS:-/verif/harness}/go.sum "$W/go.sum"
 cp /verif/known_findings.json "$W/root/"; cp /verif/properties.jsonl "$W/root/" 2>/dev/null
 RACE=""; BIN="$W/vd"
-( cd /verif/harness && go build -tags verif -modfile="$W/go.mod" -o "$W/vd" ./cmd/vd ) || { echo "BUILD FAILED"; exit 3; }
+( cd ${HARNESS:-/verif/harness} && go build -tags verif -modfile="$W/go.mod" -o "$W/vd" ./cmd/vd ) || { echo "BUILD FAILED"; exit 3; }
 for need in $("$W/vd" needs "$ID"); do
   case "$need" in
-    race) ( cd /verif/harness && go build -race -tags verif -modfile="$W/go.mod" -o "$W/vd-race" ./cmd/vd ) || exit 3; BIN="$W/vd-race" ;;
+    race) ( cd ${HARNESS:-/verif/harness} && go build -race -tags verif -modfile="$W/go.mod" -o "$W/vd-race" ./cmd/vd ) || exit 3; BIN="$W/vd-race" ;;
     d2) mkdir -p "$W/root/bin"; ( cd "$W/wt" && go build -tags verif -o "$W/root/bin/d2" . ) || exit 3 ;;
-    tools) mkdir -p "$W/root/bin"; ( cd /verif/harness && go build -tags verif -modfile="$W/go.mod" -o "$W/root/bin/" ./tools/... ) || exit 3 ;;
+    tools) mkdir -p "$W/root/bin"; ( cd ${HARNESS:-/verif/harness} && go build -tags verif -modfile="$W/go.mod" -o "$W/root/bin/" ./tools/... ) || exit 3 ;;
   esac
 done
 export VERIF_ROOT="$W/root" VERIF_REPO="$W/wt" GORACE="halt_on_error=0 log_path=$W/root/replays/race-$ID"
